@@ -15,6 +15,15 @@ Protocol (ids are small naturals; op n is "op<n>", resource n is "r<n>" in the i
   kill o               CoordinationSystem.kill_operation              shutdown
   exempt o b           ctx.metadata["watchdog_exempt"] = b            adv us   virtual clock
   advance o            controller.advance(ctx) (default checkpoints: G0 -> G1 makes the operation a starvation candidate)
+  flag o r|e|v 0|1     public attribute of the live context re-assigned: ctx.resources_acquired / execution_complete /
+                       validation_passed (with them `advance` takes an operation through every phase and round the cycle)
+  track a o            public attribute of the live cell re-assigned: cell.agent_operations[agent a] = "op<o>" (agent 0 is the
+                       agent every `cell` line uses, agent 1 another one)
+  cnest o p r,.. i ip q,.. <cc|cx|xc|xx> <w|v|0..3> <same|other> <yes|no>   SEARCH-ONLY (last line of a case): operation o
+                       (through IntegratedCell.execute `c` / execute_operation `x`) whose work_fn / validate_fn / i-th
+                       checkpoint condition starts operation i (priority ip, requesting q,.., through `c` / `x`, for the
+                       same or another agent, validate answering yes|no); ownership of o's resources is sampled inside
+                       o's work_fn before and after the nested call, of i's resources inside i's work_fn
   deadlock             controller.check_deadlock()                    watchdog   watchdog.execute(controller)
   boost                priority_manager.check_and_boost(controller)   maint      run_maintenance()
   exec o p r,r,..|-|none <4 x b|n|x|y|z>[@<i><act>[:<us>]]* <act>:<ok|raise[.K]>[:<us passing inside work>] <absent|yes|no|raise[.K]>[@<act>[:<us>]]
@@ -402,6 +411,81 @@ class Impl:
         return "search-only"
 
     # ------------------------------------------------------------------------------------------------------
+    def do_cnest(self, t, info):
+        """search-only: a callback of operation o re-enters the cell layer / execute_operation for another operation"""
+        cs = self.cs
+        ctrl = cs.controller
+        cell = self.cell
+        C = self.o.m_controller
+        outer, inner = opn(int(t[1])), opn(int(t[4]))
+        p, ip = int(t[2]), int(t[5])
+        req = [] if t[3] == "-" else [rn(int(x)) for x in t[3].split(",")]
+        ireq = [] if t[6] == "-" else [rn(int(x)) for x in t[6].split(",")]
+        lo, li = t[7][0], t[7][1]
+        where, same, ival = t[8], t[9] == "same", t[10] == "yes"
+        samples = []
+        seen = {}
+
+        def own(op, rs):
+            return "".join(("?" if r not in ctrl.resources else show_bool(ctrl.resources[r].owner == op)) for r in rs)
+
+        def call_inner():
+            def iwork():
+                samples.append(("inner", own(inner, ireq)))
+                return 1
+            ag = agent() if same else "agentB"
+            try:
+                if li == "c":
+                    r = cell.execute(ag, inner, iwork, resources=ireq, validate_fn=lambda x: ival, priority=ip)
+                else:
+                    r = cs.execute_operation(inner, ag, iwork, resources=ireq, validate_fn=lambda x: ival, priority=ip)
+                seen["inner_success"] = bool(r.success)
+            except Exception as e:  # noqa
+                seen["inner_raised"] = type(e).__name__
+
+        counter = [0]
+
+        def mk(phase):
+            def cond(ctx):
+                if ctx.operation_id != outer:          # the nested operation meets the default conditions
+                    return bool(self.defaults[phase](ctx))
+                i = counter[0]
+                counter[0] += 1
+                if where == str(i):
+                    call_inner()
+                return bool(self.defaults[phase](ctx))
+            return cond
+
+        def work():
+            if where == "w":
+                samples.append(("before", own(outer, req)))
+                call_inner()
+                samples.append(("after", own(outer, req)))
+            else:
+                samples.append(("work", own(outer, req)))
+            return 1
+
+        def validate(x):
+            if where == "v":
+                call_inner()
+            return True
+        ctrl.checkpoints = {ph: [C.Checkpoint(phase=ph, condition=mk(ph), name="scripted")] for ph in self.defaults}
+        try:
+            if lo == "c":
+                res = cell.execute(agent(), outer, work, resources=req, validate_fn=validate, priority=p)
+            else:
+                res = cs.execute_operation(outer, agent(), work, resources=req, validate_fn=validate, priority=p)
+            info["success"] = bool(res.success)
+        except Exception as e:  # noqa
+            info["raised"] = type(e).__name__
+        finally:
+            ctrl.checkpoints = dict(self.default_cps)
+        info["nest"] = (num(outer), num(inner))
+        info["samples"] = samples
+        info.update(seen)
+        return "search-only"
+
+    # ------------------------------------------------------------------------------------------------------
     def step(self, line):
         """-> (result string, info dict)"""
         t = line.split()
@@ -446,6 +530,19 @@ class Impl:
                 return "ok", info
             if k == "nest" and len(t) == 7:
                 return self.do_nest(t, info), info
+            if k == "cnest" and len(t) == 11:
+                return self.do_cnest(t, info), info
+            if k == "track" and len(t) == 3:
+                self.cell.agent_operations[agent() if t[1] == "0" else "agentB"] = opn(int(t[2]))
+                return "ok", info
+            if k == "flag" and len(t) == 4:
+                ctx = ctrl.active_operations.get(opn(int(t[1])))
+                if ctx is None:
+                    return "noop", info
+                name = {"r": "resources_acquired", "e": "execution_complete", "v": "validation_passed"}.get(t[2])
+                if name is not None:
+                    setattr(ctx, name, t[3] == "1")
+                return "ok", info
             if k == "res" and len(t) == 3:
                 if rn(int(t[1])) in ctrl.resources:
                     return "dup", info
@@ -762,3 +859,105 @@ def gen_nest(rng):
     lines.append(f"nest 1 {rng.randint(0, 5)} {','.join(map(str, req))} {inner} {','.join(map(str, ireq))} "
                  f"{rng.choice(['yes', 'yes', 'no'])}")
     return {"lines": lines, "note": "search-only: nested execute_operation"}
+
+
+def gen_cnest(rng):
+    """search-only: a callback of an operation that runs through the cell layer / execute_operation starts another
+    operation through the cell layer / execute_operation - for the same agent or another one - and goes on working."""
+    nres = rng.choice([2, 3, 3])
+    lines = ["cfg none none none priority"] + [f"res {r} {rng.choice('001')}" for r in range(1, nres + 1)]
+    if rng.random() < 0.3:
+        lines += [f"start 2 {rng.randint(0, 5)}", f"acq 2 {rng.randint(1, nres)}"]
+    if rng.random() < 0.15:
+        lines.append(f"track {rng.choice('01')} {rng.choice([2, 7])}")
+    req = rng.sample(range(1, nres + 1), rng.randint(1, nres - 1))
+    rest = [r for r in range(1, nres + 1) if r not in req]
+    inner = rng.choice([5, 5, 5, 5, 1])
+    c = rng.random()
+    if c < 0.6:
+        ireq = rng.sample(rest, rng.randint(0, len(rest)))            # disjoint: both can work
+    elif c < 0.8:
+        ireq = rng.sample(range(1, nres + 1), rng.randint(1, nres))   # may overlap: blocked or preempting
+    else:
+        ireq = []
+    lines.append(f"cnest 1 {rng.randint(0, 5)} {','.join(map(str, req))} {inner} {rng.randint(0, 5)} "
+                 f"{','.join(map(str, ireq)) or '-'} {rng.choice(['cc', 'cc', 'cc', 'cx', 'xc', 'xx'])} "
+                 f"{rng.choice(['w', 'w', 'w', 'w', 'v', '0', '1', '2', '3'])} {rng.choice(['same', 'same', 'other'])} "
+                 f"{rng.choice(['yes', 'yes', 'no'])}")
+    return {"lines": lines, "note": "search-only: nested operation through the cell layer"}
+
+
+def cnest_table():
+    """every layer combination x every callback position x same / other agent x disjoint / overlapping requests"""
+    cases = []
+    for layers in ("cc", "cx", "xc", "xx"):
+        for where in ("w", "v", "0", "1", "2", "3"):
+            for ag in ("same", "other"):
+                for ireq, ip in (("2", 3), ("-", 3), ("1", 5), ("1,2", 1)):
+                    for pre in ("0", "1"):
+                        cases.append({"lines": ["cfg none none none priority", f"res 1 {pre}", "res 2 0",
+                                                f"cnest 1 3 1 5 {ip} {ireq} {layers} {where} {ag} yes"],
+                                      "note": "exhaustive (search-only): nested operation"})
+    return cases
+
+
+def gen_tracked(rng):
+    """public attribute of the live cell assigned from outside: agent_operations names a live operation of somebody
+    else (or nothing that exists) when the cell executes; that operation and what it holds are not the cell's business"""
+    nres = rng.choice([2, 3])
+    lines = [gen_cfg(rng)] + [f"res {r} {rng.choice('001')}" for r in range(1, nres + 1)]
+    held = rng.randint(1, nres)
+    lines += [f"start 2 {rng.randint(0, 5)}", f"acq 2 {held}"]
+    if rng.random() < 0.4:
+        lines += [f"start 3 {rng.randint(0, 5)}", f"acq 3 {rng.randint(1, nres)}"]
+    lines.append(f"track {rng.choice('0001')} {rng.choice([2, 2, 2, 3, 7])}")
+    free = [r for r in range(1, nres + 1) if r != held]
+    req = rng.sample(free, rng.randint(0, len(free)))
+    if rng.random() < 0.2:
+        req.append(held)
+    val = rng.choice(VALS)
+    lines.append(f"cell 1 {rng.randint(0, 5)} {','.join(map(str, req)) or '-'} {rng.choice(CP_SCRIPTS)} "
+                 f"n:{rng.choice(['ok', 'ok', 'ok.N', 'raise'])} {val} {rng.choice(POSTS)}")
+    lines += [rng.choice(["deadlock", f"rel 2 {held}", "watchdog", f"acq 2 {held}"]),
+              f"exec 4 {rng.randint(0, 5)} {','.join(str(r) for r in range(1, nres + 1))} bbbb n:ok yes"]
+    return {"lines": lines, "note": "agent_operations assigned from outside"}
+
+
+def gen_cycled_ring(rng):
+    """C15: operations that have been taken round the cell cycle (G0 -> G1 -> S -> G2 -> M -> G0, once or several times,
+    or part of the way) by controller.advance before a wait-for ring forms; the victim rule is judged against the start
+    order / priorities the harness recorded itself."""
+    k = rng.choice([2, 2, 3])
+    strat = rng.choice(["oldest", "oldest", "oldest", "priority"])
+    lim = rng.choice(["none"] * 4 + ["40"])
+    lines = [f"cfg {lim} none none {strat}"] + [f"res {r} 0" for r in range(1, k + 1)]
+    order = list(range(1, k + 1))
+    rng.shuffle(order)
+    prios = rng.sample(range(0, 6), k) if rng.random() < 0.7 else [rng.randint(0, 3) for _ in range(k)]
+    for o, p in zip(order, prios):
+        lines.append(f"start {o} {p}")
+        lines.append(f"adv {rng.choice([1, 2, 3])}")
+    cyc = rng.sample(order, rng.randint(1, k)) if rng.random() < 0.85 else []
+    if rng.random() < 0.6 and order[0] not in cyc:
+        cyc.append(order[0])                  # mostly the oldest one goes round
+    for o in cyc:
+        steps = rng.choice([5, 5, 5, 5, 10, 6, 3, 4])
+        flags = [f"flag {o} r 1", f"flag {o} e 1", f"flag {o} v 1"]
+        if rng.random() < 0.5:
+            lines += flags                     # all three at once, then advance
+            lines += [f"advance {o}"] * steps
+        else:                                  # one flag before the checkpoint that wants it
+            seq = ["", flags[0], flags[1], flags[2], ""]
+            for i in range(steps):
+                if seq[i % 5]:
+                    lines.append(seq[i % 5])
+                lines.append(f"advance {o}")
+        lines.append(f"adv {rng.choice([1, 2])}")
+    for o in order:
+        lines.append(f"acq {o} {o}")
+    ring = order[:]
+    rng.shuffle(ring)
+    for o in ring:
+        lines.append(f"acq {o} {o % k + 1}")
+    lines += ["deadlock", rng.choice(["watchdog", "watchdog", "watchdog", "maint"]), "deadlock", "watchdog"]
+    return {"lines": lines, "note": "ring after full phase cycles"}
